@@ -50,12 +50,17 @@ func LoadSites(path string) error {
 
 const maxYieldFired = 4096
 
+// siteTrace (VERIF_SITETRACE=1) logs every visit of an instrumented site: a
+// debugging aid for replays, never used by a check.
+var siteTrace = os.Getenv("VERIF_SITETRACE") == "1"
+
 // yieldState is the seeded yield scheduler.  Its hook runs on goroutines of the
 // system under test at every instrumented synchronisation statement, so it
 // touches only preallocated arrays from a norace function: it must neither
 // create happens-before edges (which would hide data races from the race
 // detector) nor be reported itself.
 type yieldState struct {
+	run      *Run
 	on       bool
 	seed     uint64
 	armed    []uint8
@@ -74,6 +79,7 @@ func (y *yieldState) init(r *Run) {
 		n = 1
 	}
 	y.seed = splitmix(r.seed ^ 0x59454c44)
+	y.run = r
 	y.armed = make([]uint8, n)
 	y.visits = make([]int64, n)
 	y.ord = make([]uint32, n)
@@ -104,6 +110,10 @@ func (y *yieldState) hook(site int) {
 		return
 	}
 	y.visits[site]++
+	if siteTrace && y.run != nil {
+		st := Sites[site]
+		y.run.Logf("  @ %s:%d %s [%s]", st.File, st.Line, st.Func, st.Kind)
+	}
 	if !y.on || y.armed[site] == 0 || y.budget <= 0 {
 		return
 	}
